@@ -39,7 +39,7 @@ CORE_NOT_COVERED = [
 PROPS["C03"] = dict(
     title="Parser-state combinators are all-or-nothing and match exactly",
     verus_units=[("core", {}, ""), ("core", {"feature.memchr": True}, "memchr")],
-    kani=["inmod_c03"], searcher=["prims", "state"],
+    kani=["inmod_c03", "peek_enum"], searcher=["prims", "peek", "state"],
     design_ref="DESIGN.md section 5, C03",
     technique="contract-based deductive verification (Verus): frame law with closure laws on every ParserState combinator, exact functional contracts on the Position matchers over vstd's UTF-8 theory; real code extracted from /repo each run",
     level_text="Unbounded proof for all call trees built from lawful closures and all inputs: every public ParserState operation is verified against the frame law (input, flags, snapshots below entry depth and earlier tokens untouched) given that its closure arguments obey it; failed sequence / any lookahead restore position, tokens (up to node tags, finding F2) and stack; rule emits exactly one balanced Start/End pair around its body's tokens iff it succeeds outside lookahead/atomic; match_string/insensitive/range/char_by/skip/skip_until_basic have exact iff/advance/stay/boundary postconditions proved from vstd's UTF-8 definitions.",
@@ -49,12 +49,13 @@ PROPS["C03"] = dict(
 PROPS["C04"] = dict(
     title="The token stream is a well-formed tree and every Pairs view agrees with it",
     verus_units=[("core", {}, ""), ("pairs", {}, "")],
-    kani=[], searcher=["pairs", "state"],
+    kani=["pairs_enum"], searcher=["pairs", "state"],
     design_ref="DESIGN.md section 5, C04",
     technique="contract-based deductive verification (Verus): recursive closed-forest predicate as part of the frame law of every ParserState operation; precondition of pairs::new discharged in state()",
     level_text="Part (a), emission: proved for all call trees of lawful closures that the tokens appended by any operation form a closed forest (balanced, properly nested, positions non-decreasing, on UTF-8 boundaries, within the text walked), hence every successful parse hands pairs::new a well-formed stream. Part (b), views: see the pairs unit.",
     level_note="As C03. Display/Debug/JSON/concat views build strings through format!/serde and are outside the Verus subset.",
-    assumptions=CORE_ASSUME, not_covered=CORE_NOT_COVERED + ["Display, Debug, to_json, concat: format!/serde, not covered"],
+    assumptions=CORE_ASSUME, not_covered=CORE_NOT_COVERED + ["Display, Debug, to_json, concat: format!/serde, not covered",
+        "node-tag views (as_node_tag, find_tagged, find_first_tagged: Filter<FlatPairs, impl FnMut>) are iterator-adaptor code outside every contract: decided only by the pairs_search enumeration (bounded stand-in, every forest of <= 3 nodes x every tag assignment)"],
 )
 PROPS["C08"] = dict(
     title="Failure reports point at the furthest failure with sound expectations",
@@ -109,10 +110,10 @@ PROPS["C16"] = dict(
     design_ref="DESIGN.md section 5, C16",
     technique="contract-based verification with Kani/CBMC: loop-free harnesses over a fully symbolic `char` on the real pest::unicode functions (complete over all 1,112,064 scalar values)",
     level_text="Complete proof over the finite domain of all Unicode scalar values: each clause (exactly one two-letter general category; each grouped category equals the union of its members; scripts pairwise disjoint) is one loop-free CBMC query with a symbolic char through the real ucd_trie lookup on the real generated tables. Quick tier: partition + 8 unions; thorough adds the 163-script disjointness harness.",
-    level_note="Trusted: Kani 0.68/CBMC/CaDiCaL; the grouping table (UAX#44) in vx/gen_unicode.py is the specification. Name clause (by_name resolves every advertised name and agrees with the function): exhaustive native enumeration as a labelled stand-in, not a proof; VM/generator/validator dispatch not covered.",
+    level_note="Trusted: Kani 0.68/CBMC/CaDiCaL; the grouping table (UAX#44) in vx/gen_unicode.py is the specification. Name clause (by_name resolves every advertised name and agrees with the function): exhaustive native enumeration as a labelled stand-in, not a proof; the same run requires the grammar validator to accept every advertised name and compares pest_vm and a derive-generated parser with the property function at every range edge (enumerative, not a proof).",
     assumptions=["Kani 0.68 / CBMC 6.11 / CaDiCaL are sound on loop-free code; rustc MIR semantics as modelled by Kani",
                  "the member lists of the eight grouped categories are taken from UAX #44 (specification side), written in vx/gen_unicode.py"],
-    not_covered=["name clause: not provable deductively here (a Kani harness for a name deep in the BY_NAME tables did not finish in 15 min). Stand-in: exhaustive native enumeration of every advertised name x every scalar value through unicode::by_name and unicode_property_names on the real code (reported under bounded_checks, never counted as discharged). The VM's / generator's dispatch and the validator's BUILTINS table are not covered",
+    not_covered=["name clause: not provable deductively here (a Kani harness for a name deep in the BY_NAME tables did not finish in 15 min). Stand-in: exhaustive native enumeration of every advertised name x every scalar value through unicode::by_name and unicode_property_names on the real code (reported under bounded_checks, never counted as discharged). The validator's built-in table, the VM's and the generator's dispatch are exercised by the same enumeration (validator accepts each name; VM and a derive-generated parser agree with the function at every range edge and on a stride sample)",
                  "script disjointness runs in the thorough tier only (about 4 minutes)"],
 )
 
